@@ -15,19 +15,19 @@ def register(claim):
     claim("C03", "proof",
           "parse_encode: for every well-formed block sequence (any number of events/blocks/fragments incl. empty ones, status words on either "
           "side, full-width fields) and every selection, the model of the C++ parser returns exactly the intended records; merge_spec for "
-          "T/Q merging; unpack(pack)=id. Model tied to the working-tree C++ (native build) and to the real Python reader on generated files.",
+          "T/Q merging; unpack(pack)=id. Model tied to the working-tree C++ (native build) and to the real Python reader on generated files. The Python framing and batch loop are translated from raw_io.py on every run (Gen/RawPy) and proved equal to the file / reader models (Props/RawPyTie).",
           K + NAT + "hand-written model Model/RawParser.lean + Spec/RawFormat.lean; constants/masks extracted from the C++ on every run (Props/RawTie); "
           "Python framing (_preprocess_file/_read_batch) is modelled on the bytes of the file (Model/RawFile.lean) and proved at file level (Props/C03File: any name/tag length, batch size, completion order); "
           "on corrupted block chains the model is stricter than the lazily walking reader; file I/O, np.frombuffer and the awkward assembly are compared, not proved.",
           "Lean 4 round-trip theorem (decode (encode x) = x by induction over the nested format) on a hand-written parser model; "
-          "file-level theorem over the byte encoder; three-way correspondence model / native working-tree build / intended decode; byte-level model vs real reader on well-formed and framing-corrupted files; delayed-completion ordering on the real reader; long streams (> 2^16 fragments / words / events) on the native parser against the intended decode", "DESIGN.md §6 C03")
+          "file-level theorem over the byte encoder; three-way correspondence model / native working-tree build / intended decode; byte-level model vs real reader on well-formed and framing-corrupted files; delayed-completion ordering on the real reader; long streams (> 2^16 fragments / words / events) on the native parser against the intended decode; AST translator (cursor program of _preprocess_file, _read_batch step, arrays loop) + tie theorems", "DESIGN.md §6 C03")
     claim("C04", "proof",
           "Termination of the batch loop within N+2 iterations for every n_blocks in {-1} U N and batch size >= 1; result = decode of the first "
           "min(n, N) blocks for every batch size, every completion order of the pool and every earlier cursor position (hence prefix, "
           "idempotence, batch/worker invariance); selection = projection of the full read (C03b). Real arrays() exercised over a grid with perturbed "
-          "completion orders under a watchdog. File level (Props/C03File::file_prefix): reading the first n blocks of the bytes of any well-formed file returns the events of those blocks.",
+          "completion orders under a watchdog. File level (Props/C03File::file_prefix): reading the first n blocks of the bytes of any well-formed file returns the events of those blocks. The while loop of arrays(), its epilogue (empty batch, gather in submission order, cursor reset) and concatenate (list order, argument alignment) are translated from raw_io.py on every run and proved equal to the reader / concat models (Props/RawPyTie).",
           K + NAT + "thread interleavings are sampled (seeded sleeps), not enumerated; data-race freedom rests on each call owning its parser (partial for thread-safety).",
-          "Lean 4 theorems on a fuelled loop model + pool-as-permutation model; correspondence against the real reader in a watched child process; concatenate_raw in list order with repeated / aliased files; really overlapping decode calls (ctypes releases the GIL) compared with sequential decodes in a child process, ThreadSanitizer build in the thorough tier",
+          "Lean 4 theorems on a fuelled loop model + pool-as-permutation model; correspondence against the real reader in a watched child process; concatenate_raw in list order with repeated / aliased files; really overlapping decode calls (ctypes releases the GIL) compared with sequential decodes in a child process, ThreadSanitizer build in the thorough tier; AST translator for raw_io.py + tie theorems",
           "DESIGN.md §6 C04")
     claim("C05", "proof",
           "36 Lean theorems over BitVec 64 about the kernels regenerated from digi_id.py on every run: decode(encode f) = f "
@@ -56,10 +56,10 @@ def register(claim):
     claim("C10", "proof",
           "Index bound for every 32-bit word (symbolic), totality (invalid marker or own tag), injectivity on mapped entries (certificate-checked), "
           "MDC wire type = geometry stereo class, every wire / crystal has exactly one pre-image, field ranges, equality with the pinned reference - "
-          "all over the complete tables as evaluated from the working tree; conversion checked on a real read containing every representable id.",
+          "all over the complete tables as evaluated from the working tree; conversion checked on a real read containing every representable id. convert_reid_to_teid is translated block by block (Gen/ReidPy); Props/ReidTie proves on the translated code that exactly the id column of each of mdc / tof / emc / muc is replaced by its image under that detector's own table and that everything else (offsets, other columns, other keys, orders) is unchanged.",
           K + TR + NAT + "BOSS sources unavailable: 'equals the BOSS map' = equals reference/reid_tables.json (SHA-256 pinned); injectivity certificates "
           "are emitted by the generator and checked in the kernel.",
-          "Lean 4 kernel evaluation over complete tables + certificate lemma; all-ids synthetic raw file through the real reader; the same relation through concatenate_raw with decoding passed explicitly; electronics ids returned with decoding disabled compared with the encoded ones",
+          "Lean 4 kernel evaluation over complete tables + certificate lemma; all-ids synthetic raw file through the real reader; the same relation through concatenate_raw with decoding passed explicitly; electronics ids returned with decoding disabled compared with the encoded ones; AST translator for convert_reid_to_teid + tie theorems",
           "DESIGN.md §6 C10")
     claim("C11", "proof",
           "Over the reals: output in normal form (phi0 in [0,2pi)), identity, (dr,phi0) depend only on the circle and the new pivot (path "
@@ -99,10 +99,10 @@ def register(claim):
           "Over all histories of table updates / process starts / loads / first uses / (interrupted) checks / forced clears: after a complete check no "
           "cache is older than its table; fresh caches untouched; force clears all; interruption only removes files. Content level: for atomic "
           "histories every surviving cache was built from the current table; machine-checked witness that this fails otherwise (recorded finding, "
-          "replayed end-to-end on the real package every run).",
+          "replayed end-to-end on the real package every run). src_cache_list, the clearing decision, the aggregates over all matched files, the unconditional removal loop, both sweeps and the import-time call are translated from _cache_numba.py / __init__.py on every run (Gen/CachePy) and tied to the model (Props/CacheTie).",
           K + "timestamp granularity and concurrent importers are outside the model; numba's two file kinds (index file rewritten per new signature, one data file per signature) are modelled, its naming/locking are not; glob order fixed in the harness.",
           "Lean 4 invariants by induction over operation histories with crash points; real cache_auto_clear on a scratch layout as correspondence; "
-          "end-to-end interpreter scenarios as oracle; package-wide static scan of cached numba kernels that read geometry-table data vs src_cache_list; end-to-end run over every public lookup with both tables replaced (fresh interpreter vs wiped caches)", "DESIGN.md §6 C17")
+          "end-to-end interpreter scenarios as oracle; package-wide static scan of cached numba kernels that read geometry-table data vs src_cache_list; end-to-end run over every public lookup with both tables replaced (fresh interpreter vs wiped caches); AST translator for _cache_numba.py + tie theorems", "DESIGN.md §6 C17")
     claim("C01", "proof",
           "readTObjArray_encode / readEntries_encode: for every element codec that reads exactly its own encoding, every list of objects per event "
           "(incl. empty events), every header variant (new-class tag with name vs class reference, any byte count with the mask bit, referenced bit) the "
